@@ -19,7 +19,7 @@ ASSUMPTIONS = ["FULL feature configuration (dnssec-ring)", "Label/[u8] compariso
 
 N = 'hickory_net::dnssec::nsec3::'
 ITER = r'NSEC3::iterations\(<Vec<T;A> as Index<I>>::index\(.*,0\)\.nsec3_data\)'
-QREC = r"<Iter<'a;T> as Iterator>::find\(slice::iter\(arg3\.nsec3s\),closure:nsec3::validate_nodata_response::\{closure#0\}\)"
+QREC = r"<Iter<'a;T> as Iterator>::find\(slice::iter\(arg3\.nsec3s\),closure:nsec3::validate_nodata_response::\{closure@find#0\}\)"
 CEW = r'Context::closest_encloser_proof_with_wildcard\(arg3,true\)'
 CEX = r'Context::closest_encloser_proof_with_wildcard\(arg1,false\)'
 
@@ -32,7 +32,7 @@ def run(cx):
         req = {
             'iterations-le-soft': rf'^le\({ITER},arg6\)$',
             'iterations-le-hard': rf'^le\({ITER},arg7\)$',
-            'params-agree': r"^!<Iter<'a;T> as Iterator>::any\(slice::iter\(.*\),closure:nsec3::verify_nsec3::\{closure#1\}\)$",
+            'params-agree': r"^!<Iter<'a;T> as Iterator>::any\(slice::iter\(.*\),closure:nsec3::verify_nsec3::\{closure@any#0\}\)$",
             'all-records-scanned': r"^!ok\(<Iter<'a;T> as Iterator>::next\(arg5\)\)$",
         }
         cx.guard('C09.G1', down, req, expect=3, fn=f)
@@ -46,7 +46,7 @@ def run(cx):
         cx.check('C09.G1', len(body) == 1, f.path, 'loop', 'record-loop-shape', f'{len(body)} loop bodies')
         for name, pat in {
                 'owner-splits': r'^ok\(nsec3::split_first_label\(',
-                'base-equals-soa': r'^!Option::is_some_and\(arg2,closure:nsec3::verify_nsec3::\{closure#0\}\)$',
+                'base-equals-soa': r'^!Option::is_some_and\(arg2,closure:nsec3::verify_nsec3::\{closure@is_some_and#0\}\)$',
                 'hash-label-valid': r'^ok\(Label::from_raw_bytes\('}.items():
             cx.must_pass('C09.G1', f, down, via_edge=pat, start_blocks=body, what='per-record:' + name)
         # yields in verify_nsec3 itself: Insecure only above the soft limit, never Secure
@@ -57,14 +57,14 @@ def run(cx):
         cx.guard('C09.G1', ins, {'over-soft-limit': rf'^lt\(arg6,{ITER}\)$', 'not-over-hard': rf'^le\({ITER},arg7\)$'}, expect=1, fn=f)
         bog = [s for s in ys if 'Proof::Bogus' in s.term and 'iteration count' in s.term]
         cx.guard('C09.G1', bog, {'over-hard-limit': rf'^lt\(arg7,{ITER}\)$'}, expect=1, fn=f)
-    c0 = cx.fn('C09.G1', N + 'verify_nsec3::{closure#0}')
+    c0 = cx.fn('C09.G1', N + 'verify_nsec3::{closure@is_some_and#0}')
     if c0:
         t = cx.true_returns(c0)
         ok = len(t) == 1 and bool(re.search(r'^!eq:Name\(\^nsec3::split_first_label\(.*\)@Some\.0\.1,arg2\)$', t[0].term))
         cx.check('C09.G1', ok, c0.path, 'ret', 'zone-mismatch-is-name-inequality',
                  'closure must report a mismatch exactly when base != soa: ' + '; '.join(s.term[:160] for s in t),
                  t[0].loc if t else '')
-    c1 = cx.fn('C09.G1', N + 'verify_nsec3::{closure#1}')
+    c1 = cx.fn('C09.G1', N + 'verify_nsec3::{closure@any#0}')
     if c1:
         fr = cx.false_returns(c1)
         cx.guard('C09.G1', fr, {
@@ -78,12 +78,12 @@ def run(cx):
     if f:
         sec = [s for s in cx.calls(f, r'Context::proof$') if 'Proof::Secure' in s.term]
         total_secure += len(sec)
-        common = {'no-record-matches-qname': r"^!<Iter<'a;T> as Iterator>::any\(slice::iter\(arg1\.nsec3s\),closure:nsec3::validate_nxdomain_response::\{closure#0\}\)$",
+        common = {'no-record-matches-qname': r"^!<Iter<'a;T> as Iterator>::any\(slice::iter\(arg1\.nsec3s\),closure:nsec3::validate_nxdomain_response::\{closure@any#0\}\)$",
                   'next-closer-covered': rf'^ok\({CEX}\.0\.next_closer\)$',
                   'wildcard-covered': rf'^ok\({CEX}\.1\)$',
                   'closest-encloser-matched-or-parent-is-soa': rf'^ok\({CEX}\.0\.closest_encloser\)$|^eq:Option\(Option::Some\(Name::base_name\(arg1\.query\.name\)\),arg1\.soa\)$'}
         cx.guard('C09.G2', sec, common, expect=2, fn=f)
-    c = cx.fn('C09.G2', N + 'validate_nxdomain_response::{closure#0}')
+    c = cx.fn('C09.G2', N + 'validate_nxdomain_response::{closure@any#0}')
     if c:
         t = cx.true_returns(c)
         cx.check('C09.G2', len(t) == 1 and bool(re.search(r'^eq:Label\(\^Context::hash_and_label\(arg1,arg1\.query\.name\)\.1,arg2\.base32_hashed_name\)$', t[0].term)),
@@ -102,7 +102,7 @@ def run(cx):
         cx.guard('C09.G2', optout, {
             'qtype-is-DS': r'^eq:RecordType\(RecordType::DS,arg1\)$',
             'no-matching-record': rf'^!ok\({QREC}\)$',
-            'covered-and-opt-out': r'^Option::is_some_and\(nsec3::find_covering_record\(arg3\.nsec3s,Context::hash_and_label\(arg3,arg3\.query\.name\)\.0,Context::hash_and_label\(arg3,arg3\.query\.name\)\.1\),closure:nsec3::validate_nodata_response::\{closure#1\}\)$'},
+            'covered-and-opt-out': r'^Option::is_some_and\(nsec3::find_covering_record\(arg3\.nsec3s,Context::hash_and_label\(arg3,arg3\.query\.name\)\.0,Context::hash_and_label\(arg3,arg3\.query\.name\)\.1\),closure:nsec3::validate_nodata_response::\{closure@is_some_and#0\}\)$'},
             expect=1, fn=f)
         wc_answer = [s for s in tup if 'covering next closer record' in s.term]
         cx.guard('C09.G2', wc_answer, {
@@ -145,7 +145,7 @@ def run(cx):
     cx.check('C09.G2', not others, N + '*', 'secure-origins', 'no-other-secure-origin', '; '.join(others))
 
     # ------------------------------------------------------------------ G3 cover test
-    c = cx.fn('C09.G3', N + 'find_covering_record::{closure#0}')
+    c = cx.fn('C09.G3', N + 'find_covering_record::{closure@find#0}')
     if c:
         OWN_LT_TGT = r'^lt:Label\(arg2\.base32_hashed_name,\^arg3\)$'
         TGT_LT_NEXT = r'^lt:\[u8\]\(\^arg2,NSEC3::next_hashed_owner_name\(arg2\.nsec3_data\)\)$'
@@ -168,7 +168,7 @@ def auth_filter(cx, rule, variant):
     the same owner carries Proof::Secure"""
     V = 'hickory_net::dnssec::DnssecDnsHandle::verify_response::{closure#0}::'
     found = 0
-    for g in cx.prog.find(r'^hickory_net::dnssec::DnssecDnsHandle::verify_response::\{closure#0\}::\{closure#\d+\}$'):
+    for g in cx.prog.find(r'^hickory_net::dnssec::DnssecDnsHandle::verify_response::\{closure#0\}::\{closure[^}]*\}$'):
         some = [s for s in cx.returns(g, r'^Option::Some\(\(') if f'@{variant}.0' in s.term]
         if not some:
             continue
@@ -178,7 +178,7 @@ def auth_filter(cx, rule, variant):
         # the inner predicate: same owner and Secure
         for s in some:
             pass
-        inner = [h for h in cx.prog.find('^' + re.escape(g.path) + r'::\{closure#\d+\}$')]
+        inner = [h for h in cx.prog.find('^' + re.escape(g.path) + r'::\{closure[^}]*\}$')]
         okp = False
         for h in inner:
             fr = cx.true_returns(h)
